@@ -920,9 +920,19 @@ func newCommonNode(ctx context.Context, cfg CommonConfig) *commonNode {
 // TransactionResultsFromCometBFT converts CometBFT transactions and responses
 // into transaction results.
 func TransactionResultsFromCometBFT(height int64, txs [][]byte, responses []*cmtabcitypes.ResponseDeliverTx) ([]*results.Result, error) {
+	// The responses may come from an untrusted provider (stateless client), make sure there is
+	// exactly one (non-nil) response per transaction.
+	if len(responses) != len(txs) {
+		return nil, fmt.Errorf("cometbft: mismatched number of transactions and results (%d != %d)", len(txs), len(responses))
+	}
+
 	txResults := make([]*results.Result, 0, len(txs))
 
 	for idx, rs := range responses {
+		if rs == nil {
+			return nil, fmt.Errorf("cometbft: missing result for transaction %d", idx)
+		}
+
 		// Transaction result.
 		result := &results.Result{
 			Error: results.Error{
